@@ -229,6 +229,15 @@ impl Error {
         })
     }
 
+    pub fn missing_field(name: &str, case: &str, ast: &impl crate::parsing::AstNode) -> Self {
+        Self::MissingField(MissingFieldError {
+            name: name.to_string(),
+            case: case.to_string(),
+            src: None,
+            span: ast.span().clone(),
+        })
+    }
+
     pub fn invalid_target_type(
         expected: &Type,
         got: &Type,
@@ -551,7 +560,16 @@ impl Analyzable for PolicyConstructor {
 impl Analyzable for PolicyDef {
     fn analyze(&mut self, parent: Option<Rc<Scope>>) -> AnalyzeReport {
         match &mut self.value {
-            PolicyValue::Constructor(x) => x.analyze(parent),
+            PolicyValue::Constructor(x) => {
+                let fields = x.analyze(parent);
+
+                // the hash is what identifies the policy, everything else is optional
+                if x.find_field("hash").is_none() {
+                    return fields + Error::missing_field("hash", &self.name.value, x).into();
+                }
+
+                fields
+            }
             PolicyValue::Assign(_) => AnalyzeReport::default(),
         }
     }
@@ -653,13 +671,7 @@ impl Analyzable for VariantCaseConstructor {
             for field in case.fields.iter() {
                 if self.find_field_value(&field.name.value).is_none() {
                     missing = missing
-                        + Error::MissingField(MissingFieldError {
-                            name: field.name.value.clone(),
-                            case: case.name.value.clone(),
-                            src: None,
-                            span: self.span.clone(),
-                        })
-                        .into();
+                        + Error::missing_field(&field.name.value, &case.name.value, self).into();
                 }
             }
         }
